@@ -518,7 +518,20 @@ def run_all(scenarios: list, nproc: int | None = None):
                 return run_scenario(s2, wd)
         with cf.ThreadPoolExecutor(nproc) as ex:
             refs = dict(zip(keys, ex.map(lambda s: reference_for(s, wd), keys.values())))
-            results = list(ex.map(attempt, scenarios))
+            # iteration limits stated relative to the iteration at which the uninterrupted run converges
+            runnable = []
+            for s in scenarios:
+                conv = refs[s["refkey"]].conv
+                txt = json.dumps(s["gens"])
+                if "@CONV" in txt:
+                    if conv is None or conv < 3:
+                        SKIPPED.append(s["name"])
+                        continue
+                    txt = txt.replace('"@CONV-1"', str(conv - 1)).replace('"@CONV+1"', str(conv + 1)).replace('"@CONV"', str(conv))
+                    s["gens"] = json.loads(txt)
+                    s["conv_resolved"] = conv
+                runnable.append(s)
+            results = list(ex.map(attempt, runnable))
         for sc, gens in results:
             ref = refs[sc["refkey"]]
             if ref.conv is None and sc.get("need_conv", True):
